@@ -235,12 +235,10 @@ impl<'cmd> Parser<'cmd> {
                             // revisit the current group of short flags skipping the subcommand.
                             keep_state = self
                                 .flag_subcmd_at
-                                .map(|at| {
+                                .map(|_| {
+                                    // The number of flags to skip during state recovery was recorded by `parse_short_arg`
                                     raw_args
                                         .seek(&mut args_cursor, clap_lex::SeekFrom::Current(-1));
-                                    // Since we are now saving the current state, the number of flags to skip during state recovery should
-                                    // be the current index (`cur_idx`) minus ONE UNIT TO THE LEFT of the starting position.
-                                    self.flag_subcmd_skip = self.cur_idx.get() - at + 1;
                                 })
                                 .is_some();
 
@@ -916,6 +914,8 @@ impl<'cmd> Parser<'cmd> {
 
         let mut ret = ParseResult::NoArg;
 
+        // How many flags the whole group holds, to tell how many were consumed once a flag subcommand is found
+        let group_len = short_arg.clone().count();
         let skip = self.flag_subcmd_skip;
         self.flag_subcmd_skip = 0;
         let res = short_arg.advance_by(skip);
@@ -998,6 +998,10 @@ impl<'cmd> Parser<'cmd> {
                 let done_short_args = short_arg.is_empty();
                 if done_short_args {
                     self.flag_subcmd_at = None;
+                } else {
+                    // When this group is revisited, skip every flag consumed so far (an option may
+                    // have taken more than one index, so `cur_idx` cannot tell)
+                    self.flag_subcmd_skip = group_len - short_arg.clone().count();
                 }
                 Ok(ParseResult::FlagSubCommand(name))
             } else {
